@@ -984,4 +984,326 @@ theorem bad_Stmt {d : Gen.D} {L : Loc} (hL : L.Refused d) : ∀ st, anyStmt L st
   | .createTable _ | .dropTable _ _ | .set _ | .analyze _ _ _ _ _ | .msck _ | .use _ | .truncate _ | .showDatabases | .showTables => by
     simp [anyStmt]
 
+/-! ## which errors can come out: `OkOr E x` — `x` succeeds, or fails with an error in `E` -/
+
+def OkOr (E : Err → Prop) {α : Type} (x : Except Err α) : Prop := ∀ err, x = .error err → E err
+
+theorem OkOr.ok {E : Err → Prop} {α : Type} (a : α) : OkOr E (Except.ok a) := by intro e h; cases h
+theorem OkOr.pure {E : Err → Prop} {α : Type} (a : α) : OkOr E (Pure.pure a : Except Err α) := by intro e h; cases h
+theorem OkOr.error {E : Err → Prop} {α : Type} {e : Err} (h : E e) : OkOr E (Except.error e : Except Err α) := by
+  intro e' h'; cases h'; exact h
+theorem OkOr.bind {E : Err → Prop} {α β : Type} {x : Except Err α} {f : α → Except Err β}
+    (hx : OkOr E x) (hf : ∀ a, OkOr E (f a)) : OkOr E (x >>= f) := by
+  intro e h
+  cases x with
+  | error e' => cases h; exact hx _ rfl
+  | ok a => exact hf a e h
+theorem OkOr.map {E : Err → Prop} {α β : Type} {x : Except Err α} {f : α → β} (hx : OkOr E x) : OkOr E (Except.map f x) := by
+  intro e h
+  cases x with
+  | error e' => cases h; exact hx _ rfl
+  | ok a => cases h
+/-- with `E` empty, `OkOr` is success -/
+theorem OkOr.total {α : Type} {x : Except Err α} (h : OkOr (fun _ => False) x) : ∃ a, x = .ok a := by
+  cases x with
+  | error e => exact (h e rfl).elim
+  | ok a => exact ⟨a, rfl⟩
+
+/-- at every node NOT flagged by `L`, the printer's own (non-recursive) steps succeed or fail within `E` -/
+structure Loc.Clean (d : Gen.D) (E : Err → Prop) (L : Loc) : Prop where
+  un : ∀ o e, L.e (.unary o e) = false → OkOr E (computeOpSrc d o)
+  bin : ∀ l o r, L.e (.compute l o r) = false → OkOr E (computeOpSrc d o)
+  cmp : ∀ o l r, L.e (.compare o l r) = false → OkOr E (compareOpSrc o)
+  cast : ∀ e sg ty ps, L.e (.cast e sg ty ps) = false → OkOr E (valueSrc Gen.castTypes ty)
+  idx : ∀ a i, L.e (.index a i) = false → d = .HIVE ∨ E .notSupported
+  sel : ∀ ws dist cols fr lats js wh gb hv ob sb db cb lm, L.s (.mk ws dist cols fr lats js wh gb hv ob sb db cb lm) = false →
+    ws ≠ none ∧ OkOr E (prSGuard d lats sb db cb)
+  join : ∀ ty t rule, L.j (.mk ty t rule) = false → OkOr E (wordsSrc Gen.joinTypes ty)
+  grp : ∀ gc sets cube rollup, L.g (.mk gc sets cube rollup) = false → ∀ l, sets = some l → [] ∉ l
+  qry : ∀ ws x us, L.q (.union ws x us) = false → ws ≠ none ∧ ∀ p ∈ us, OkOr E (wordsSrc Gen.unionTypes p.1)
+
+local macro "okor" : tactic =>
+  `(tactic| repeat' (first | assumption | exact OkOr.ok _ | exact OkOr.pure _ | apply OkOr.map | apply OkOr.bind | intro _))
+
+mutual
+theorem res_E {d : Gen.D} {E : Err → Prop} {L : Loc} (hT : L.Clean d E) : ∀ e, anyE L e = false → OkOr E (prE d e)
+  | .column t c => fun _ => OkOr.ok _
+  | .literal v => fun _ => OkOr.ok _
+  | .wildcard t => fun _ => by cases t <;> exact OkOr.ok _
+  | .mybatis v => fun _ => OkOr.ok _
+  | .func sc n ps => fun hb => by
+    simp only [anyE, Bool.or_eq_false_iff] at hb
+    have i1 := res_Es hT ps hb.2
+    simp only [prE]; okor
+  | .agg n ps dist => fun hb => by
+    simp only [anyE, Bool.or_eq_false_iff] at hb
+    have i1 := res_Es hT ps hb.2
+    simp only [prE]; okor
+  | .cast e sg ty ps => fun hb => by
+    simp only [anyE, Bool.or_eq_false_iff] at hb
+    have i1 := res_E hT e hb.2; have l1 := hT.cast _ _ _ _ hb.1
+    simp only [prE]; okor
+  | .extract n e => fun hb => by
+    simp only [anyE, Bool.or_eq_false_iff] at hb
+    have i1 := res_E hT n hb.1.2; have i2 := res_E hT e hb.2
+    simp only [prE]; okor
+  | .window fn part ord rows => fun hb => by
+    simp only [anyE, Bool.or_eq_false_iff] at hb
+    have i1 := res_E hT fn hb.1.1.2; have i2 := res_Es8 hT part hb.1.2; have i3 := res_Os hT ord hb.2
+    rcases rows with _ | ⟨x, y⟩ <;> (simp only [prE]; okor)
+  | .caseCond cs els => fun hb => by
+    simp only [anyE, Bool.or_eq_false_iff] at hb
+    have i1 := res_Arms hT cs hb.1.2; have i2 := res_OE hT els hb.2
+    simp only [prE]; okor
+  | .caseVal v cs els => fun hb => by
+    simp only [anyE, Bool.or_eq_false_iff] at hb
+    have i0 := res_E hT v hb.1.1.2; have i1 := res_Arms hT cs hb.1.2; have i2 := res_OE hT els hb.2
+    simp only [prE]; okor
+  | .subValue vs => fun hb => by
+    simp only [anyE, Bool.or_eq_false_iff] at hb
+    have i1 := res_Es8 hT vs hb.2
+    simp only [prE]; okor
+  | .subQuery q => fun hb => by
+    simp only [anyE, Bool.or_eq_false_iff] at hb
+    have i1 := res_Q hT q hb.2
+    simp only [prE]; okor
+  | .exists_ v => fun hb => by
+    simp only [anyE, Bool.or_eq_false_iff] at hb
+    have i1 := res_E hT v hb.2
+    simp only [prE]; okor
+  | .index a i => fun hb => by
+    simp only [anyE, Bool.or_eq_false_iff] at hb
+    have i1 := res_E hT a hb.1.2; have i2 := res_E hT i hb.2
+    simp only [prE]
+    rcases hT.idx _ _ hb.1.1 with rfl | hE
+    · simp only [bne_self_eq_false, Bool.false_eq_true, if_false]; okor
+    · split
+      · exact OkOr.error hE
+      · okor
+  | .unary o e => fun hb => by
+    simp only [anyE, Bool.or_eq_false_iff] at hb
+    have i1 := res_E hT e hb.2; have l1 := hT.un _ _ hb.1
+    simp only [prE]; okor
+  | .compute l o r => fun hb => by
+    simp only [anyE, Bool.or_eq_false_iff] at hb
+    have i1 := res_E hT l hb.1.2; have i2 := res_E hT r hb.2; have l1 := hT.bin _ _ _ hb.1.1
+    simp only [prE]; okor
+  | .kw k n l r => fun hb => by
+    simp only [anyE, Bool.or_eq_false_iff] at hb
+    have i1 := res_E hT l hb.1.2; have i2 := res_E hT r hb.2
+    simp only [prE]; okor
+  | .between n b f t => fun hb => by
+    simp only [anyE, Bool.or_eq_false_iff] at hb
+    have i1 := res_E hT b hb.1.1.2; have i2 := res_E hT f hb.1.2; have i3 := res_E hT t hb.2
+    simp only [prE]; okor
+  | .compare o l r => fun hb => by
+    simp only [anyE, Bool.or_eq_false_iff] at hb
+    have i1 := res_E hT l hb.1.2; have i2 := res_E hT r hb.2; have l1 := hT.cmp _ _ _ hb.1.1
+    simp only [prE]; okor
+  | .not_ e => fun hb => by
+    simp only [anyE, Bool.or_eq_false_iff] at hb
+    have i1 := res_E hT e hb.2
+    simp only [prE]; okor
+  | .and_ l r => fun hb => by
+    simp only [anyE, Bool.or_eq_false_iff] at hb
+    have i1 := res_E hT l hb.1.2; have i2 := res_E hT r hb.2
+    simp only [prE]; okor
+  | .xor l r => fun hb => by
+    simp only [anyE, Bool.or_eq_false_iff] at hb
+    have i1 := res_E hT l hb.1.2; have i2 := res_E hT r hb.2
+    simp only [prE]; okor
+  | .or_ l r => fun hb => by
+    simp only [anyE, Bool.or_eq_false_iff] at hb
+    have i1 := res_E hT l hb.1.2; have i2 := res_E hT r hb.2
+    simp only [prE]; okor
+theorem res_Es {d : Gen.D} {E : Err → Prop} {L : Loc} (hT : L.Clean d E) : ∀ es, anyEs L es = false → OkOr E (prList d es)
+  | [] => fun _ => OkOr.ok _
+  | e :: r => fun hb => by
+    simp only [anyEs, Bool.or_eq_false_iff] at hb
+    have i1 := res_E hT e hb.1; have i2 := res_Es hT r hb.2
+    simp only [prList]; okor
+theorem res_Es8 {d : Gen.D} {E : Err → Prop} {L : Loc} (hT : L.Clean d E) : ∀ es, anyEs L es = false → OkOr E (prList8 d es)
+  | [] => fun _ => OkOr.ok _
+  | e :: r => fun hb => by
+    simp only [anyEs, Bool.or_eq_false_iff] at hb
+    have i1 := res_E hT e hb.1; have i2 := res_Es8 hT r hb.2
+    simp only [prList8]; okor
+theorem res_OE {d : Gen.D} {E : Err → Prop} {L : Loc} (hT : L.Clean d E) : ∀ e, anyOE L e = false → OkOr E (prOptE d e)
+  | none => fun _ => OkOr.ok _
+  | some e => fun hb => by
+    simp only [anyOE] at hb
+    have i1 := res_E hT e hb
+    simp only [prOptE]; okor
+theorem res_Arms {d : Gen.D} {E : Err → Prop} {L : Loc} (hT : L.Clean d E) : ∀ cs, anyArms L cs = false → OkOr E (prArms d cs)
+  | [] => fun _ => OkOr.ok _
+  | (w, t) :: r => fun hb => by
+    simp only [anyArms, Bool.or_eq_false_iff] at hb
+    have i1 := res_E hT w hb.1.1; have i2 := res_E hT t hb.1.2; have i3 := res_Arms hT r hb.2
+    simp only [prArms]; okor
+theorem res_O {d : Gen.D} {E : Err → Prop} {L : Loc} (hT : L.Clean d E) : ∀ o, anyO L o = false → OkOr E (prOrd d o)
+  | .mk e _ _ _ => fun hb => by
+    simp only [anyO] at hb
+    have i1 := res_E hT e hb
+    simp only [prOrd]; okor
+theorem res_Os {d : Gen.D} {E : Err → Prop} {L : Loc} (hT : L.Clean d E) : ∀ os, anyOs L os = false → OkOr E (prOrdList d os)
+  | [] => fun _ => OkOr.ok _
+  | o :: r => fun hb => by
+    simp only [anyOs, Bool.or_eq_false_iff] at hb
+    have i1 := res_O hT o hb.1; have i2 := res_Os hT r hb.2
+    simp only [prOrdList]; okor
+theorem res_TR {d : Gen.D} {E : Err → Prop} {L : Loc} (hT : L.Clean d E) : ∀ t, anyTR L t = false → OkOr E (prTableRef d t)
+  | .table _ _ => fun _ => OkOr.ok _
+  | .sub q => fun hb => by
+    simp only [anyTR] at hb
+    have i1 := res_Q hT q hb
+    simp only [prTableRef]; okor
+theorem res_F {d : Gen.D} {E : Err → Prop} {L : Loc} (hT : L.Clean d E) : ∀ t, anyF L t = false → OkOr E (prFrom d t)
+  | .mk t a => fun hb => by
+    simp only [anyF] at hb
+    have i1 := res_TR hT t hb
+    simp only [prFrom]; okor
+theorem res_Fs {d : Gen.D} {E : Err → Prop} {L : Loc} (hT : L.Clean d E) : ∀ ts, anyFs L ts = false → OkOr E (prFromList d ts)
+  | [] => fun _ => OkOr.ok _
+  | t :: r => fun hb => by
+    simp only [anyFs, Bool.or_eq_false_iff] at hb
+    have i1 := res_F hT t hb.1; have i2 := res_Fs hT r hb.2
+    simp only [prFromList]; okor
+theorem res_J {d : Gen.D} {E : Err → Prop} {L : Loc} (hT : L.Clean d E) : ∀ j, anyJ L j = false → OkOr E (prJoin d j)
+  | .mk ty t none => fun hb => by
+    simp only [anyJ, anyRule, Bool.or_eq_false_iff] at hb
+    have i1 := res_F hT t hb.1.2; have l1 := hT.join _ _ _ hb.1.1
+    simp only [prJoin]; okor
+  | .mk ty t (some (.on c)) => fun hb => by
+    simp only [anyJ, anyRule, Bool.or_eq_false_iff] at hb
+    have i1 := res_F hT t hb.1.2; have i2 := res_E hT c hb.2; have l1 := hT.join _ _ _ hb.1.1
+    simp only [prJoin]; okor
+  | .mk ty t (some (.using u)) => fun hb => by
+    simp only [anyJ, anyRule, Bool.or_eq_false_iff] at hb
+    have i1 := res_F hT t hb.1.2; have i2 := res_E hT u hb.2; have l1 := hT.join _ _ _ hb.1.1
+    simp only [prJoin]; okor
+theorem res_Js {d : Gen.D} {E : Err → Prop} {L : Loc} (hT : L.Clean d E) : ∀ js, anyJs L js = false → OkOr E (prJoinList d js)
+  | [] => fun _ => OkOr.ok _
+  | j :: r => fun hb => by
+    simp only [anyJs, Bool.or_eq_false_iff] at hb
+    have i1 := res_J hT j hb.1; have i2 := res_Js hT r hb.2
+    simp only [prJoinList]; okor
+theorem res_Sets {d : Gen.D} {E : Err → Prop} {L : Loc} (hT : L.Clean d E) : ∀ gs, [] ∉ gs → anySets L gs = false → OkOr E (prSets d gs)
+  | [], _ => fun _ => OkOr.ok _
+  | [] :: r, hne => by simp at hne
+  | [x] :: r, hne => fun hb => by
+    simp only [anySets, anyEs, Bool.or_eq_false_iff, Bool.or_false] at hb
+    have i1 := res_E hT x hb.1; have i2 := res_Sets hT r (fun h => hne (List.mem_cons_of_mem _ h)) hb.2
+    simp only [prSets]; okor
+  | (x :: y :: z) :: r, hne => fun hb => by
+    simp only [anySets, Bool.or_eq_false_iff] at hb
+    have i1 := res_Es8 hT (x :: y :: z) hb.1; have i2 := res_Sets hT r (fun h => hne (List.mem_cons_of_mem _ h)) hb.2
+    simp only [prSets]; okor
+theorem res_G {d : Gen.D} {E : Err → Prop} {L : Loc} (hT : L.Clean d E) : ∀ g, anyG L g = false → OkOr E (prGroupBy d g)
+  | .mk gc none cube rollup => fun hb => by
+    simp only [anyG, anyOSets, Bool.or_eq_false_iff] at hb
+    have i1 := res_Es8 hT gc hb.1.2
+    simp only [prGroupBy]; okor
+  | .mk gc (some l) cube rollup => fun hb => by
+    simp only [anyG, anyOSets, Bool.or_eq_false_iff] at hb
+    have i1 := res_Es8 hT gc hb.1.2; have i2 := res_Sets hT l (hT.grp _ _ _ _ hb.1.1 l rfl) hb.2
+    simp only [prGroupBy]; okor
+theorem res_Lat {d : Gen.D} {E : Err → Prop} {L : Loc} (hT : L.Clean d E) : ∀ l, anyLat L l = false → OkOr E (prLateral d l)
+  | .mk _ fn _ _ => fun hb => by
+    simp only [anyLat] at hb
+    have i1 := res_E hT fn hb
+    simp only [prLateral]; okor
+theorem res_Lats {d : Gen.D} {E : Err → Prop} {L : Loc} (hT : L.Clean d E) : ∀ ls, anyLats L ls = false → OkOr E (prLateralList d ls)
+  | [] => fun _ => OkOr.ok _
+  | x :: r => fun hb => by
+    simp only [anyLats, Bool.or_eq_false_iff] at hb
+    have i1 := res_Lat hT x hb.1; have i2 := res_Lats hT r hb.2
+    simp only [prLateralList]; okor
+theorem res_WTs {d : Gen.D} {E : Err → Prop} {L : Loc} (hT : L.Clean d E) : ∀ ws, anyWTs L ws = false → OkOr E (prWithTables d ws)
+  | [] => fun _ => OkOr.ok _
+  | .mk _ q :: r => fun hb => by
+    simp only [anyWTs, Bool.or_eq_false_iff] at hb
+    have i1 := res_Q hT q hb.1; have i2 := res_WTs hT r hb.2
+    simp only [prWithTables]; okor
+theorem res_W {d : Gen.D} {E : Err → Prop} {L : Loc} (hT : L.Clean d E) (sep : String) : ∀ ws, ws ≠ none → anyW L ws = false → OkOr E (prWithPrefix d sep ws)
+  | none, hne => (hne rfl).elim
+  | some ws, _ => fun hb => by
+    simp only [anyW] at hb
+    have i1 := res_WTs hT ws hb
+    simp only [prWithPrefix]
+    split
+    · exact OkOr.ok _
+    · okor
+theorem res_Cols {d : Gen.D} {E : Err → Prop} {L : Loc} (hT : L.Clean d E) : ∀ cs, anyCols L cs = false → OkOr E (prCols d cs)
+  | [] => fun _ => OkOr.ok _
+  | (e, _) :: r => fun hb => by
+    simp only [anyCols, Bool.or_eq_false_iff] at hb
+    have i1 := res_E hT e hb.1; have i2 := res_Cols hT r hb.2
+    simp only [prCols]; okor
+theorem res_S {d : Gen.D} {E : Err → Prop} {L : Loc} (hT : L.Clean d E) : ∀ x, anyS L x = false → OkOr E (prS d x)
+  | .mk ws dist cols fr lats js wh gb hv ob sb db cb lm => fun hb => by
+    simp only [anyS, Bool.or_eq_false_iff, and_assoc] at hb
+    obtain ⟨hs, hws, hcols, hfr, hlats, hjs, hwh, hgb, hhv, hob, hsb, hdb, hcb⟩ := hb
+    obtain ⟨hne, hg⟩ := hT.sel _ _ _ _ _ _ _ _ _ _ _ _ _ _ hs
+    have e1 := res_W hT "\n" ws hne hws; have e2 := res_Cols hT cols hcols; have e4 := res_Lats hT lats hlats; have e5 := res_Js hT js hjs
+    have e3 : OkOr E (prOptFrom d fr) := by
+      cases fr with
+      | none => exact OkOr.pure _
+      | some l => exact OkOr.map (res_Fs hT l (by simpa only [anyOFs] using hfr))
+    have e6 : OkOr E (prOptWhere d wh) := by
+      cases wh with
+      | none => exact OkOr.pure _
+      | some e => exact OkOr.map (res_E hT e (by simpa only [anyOE] using hwh))
+    have e7 : OkOr E (prOptGroup d gb) := by
+      cases gb with
+      | none => exact OkOr.pure _
+      | some g => exact OkOr.map (res_G hT g (by simpa only [anyOG] using hgb))
+    have e8 : OkOr E (prOptHaving d hv) := by
+      cases hv with
+      | none => exact OkOr.pure _
+      | some e => exact OkOr.map (res_E hT e (by simpa only [anyOE] using hhv))
+    have e9 : OkOr E (prOptOrder d ob) := by
+      cases ob with
+      | none => exact OkOr.pure _
+      | some l => exact OkOr.map (res_Os hT l (by simpa only [anyOOs] using hob))
+    have e10 : OkOr E (prOptSort d sb) := by
+      cases sb with
+      | none => exact OkOr.pure _
+      | some l => exact OkOr.map (res_Os hT l (by simpa only [anyOOs] using hsb))
+    have e11 : OkOr E (prOptDistribute d db) := by
+      cases db with
+      | none => exact OkOr.pure _
+      | some l => exact OkOr.map (res_Es8 hT l (by simpa only [anyOEs] using hdb))
+    have e12 : OkOr E (prOptCluster d cb) := by
+      cases cb with
+      | none => exact OkOr.pure _
+      | some l => exact OkOr.map (res_Es8 hT l (by simpa only [anyOEs] using hcb))
+    have eh : OkOr E (prHive d sb db cb) := by
+      unfold prHive
+      split
+      · okor
+      · exact OkOr.pure _
+    rw [prS_eq]
+    refine OkOr.bind e1 (fun w => OkOr.bind hg (fun _ => ?_))
+    simp only [prSRest]; okor
+theorem res_Us {d : Gen.D} {E : Err → Prop} {L : Loc} (hT : L.Clean d E) : ∀ us, (∀ p ∈ us, OkOr E (wordsSrc Gen.unionTypes p.1)) →
+    anyUs L us = false → OkOr E (prUnions d us)
+  | [], _ => fun _ => OkOr.ok _
+  | (t, x) :: r, hu => fun hb => by
+    simp only [anyUs, Bool.or_eq_false_iff] at hb
+    have i1 := res_S hT x hb.1; have i2 := res_Us hT r (fun p hp => hu p (List.mem_cons_of_mem _ hp)) hb.2
+    have l1 : OkOr E (wordsSrc Gen.unionTypes t) := hu (t, x) (List.mem_cons_self ..)
+    simp only [prUnions]; okor
+theorem res_Q {d : Gen.D} {E : Err → Prop} {L : Loc} (hT : L.Clean d E) : ∀ q, anyQ L q = false → OkOr E (prQ d q)
+  | .single x => fun hb => by
+    simp only [anyQ, Bool.or_eq_false_iff] at hb
+    have i1 := res_S hT x hb.2
+    simp only [prQ]; exact i1
+  | .union ws x us => fun hb => by
+    simp only [anyQ, Bool.or_eq_false_iff, and_assoc] at hb
+    obtain ⟨hq, hws, hx, hus⟩ := hb
+    obtain ⟨hne, hu⟩ := hT.qry _ _ _ hq
+    have i0 := res_W hT "\n" ws hne hws; have i1 := res_S hT x hx; have i2 := res_Us hT us hu hus
+    simp only [prQ]; okor
+end
+
 end PR
